@@ -853,6 +853,8 @@ def route_fit(ctx, model, case):
             ctx.fail(classify(model, case, "summary-raises", "fit"), "fit: SearchOutput.samples_summary raises", dict(case, route="fit:aggregator-summary"), sm)
         elif summ0 is not None:
             check_summary(ctx, model, case, "fit:aggregator-summary", sm, summ0, tr_all)
+        if attempt(lambda: so.samples)[0] == "ok":
+            correspond_reordered(ctx, model, case, so.samples, sm if st == "ok" else None, probe_flags())
     if ctx.rng.random() < 0.5:
         f = scratch_dir() / f"scrape_{name}.sqlite"
         st, dbagg = attempt(lambda: af.Aggregator.from_database(str(f)))
@@ -890,6 +892,215 @@ def route_fit(ctx, model, case):
 
 
 # ---------------------------------------------------------------------------------------------
+# estimates: Lean `AF.SamplesStats` (exact rationals) vs the library's floating-point results
+
+SIGMAS = (1.0, 3.0)
+STAT_TOL = 1e-9
+
+
+def stats_request():
+    """quantile levels exactly as the library computes them (libm), handed to the model as data"""
+    return {
+        "ucs": int(conf.instance["general"]["output"]["unconverged_sample_size"]),
+        "qlows": [f2h((1 - math.erf(s / math.sqrt(2))) / 2) for s in SIGMAS],
+        "qlows_mcmc": [f2h(1.0 - math.erf(0.5 * s * math.sqrt(2))) for s in SIGMAS],
+    }
+
+
+def frac(s):
+    from fractions import Fraction
+
+    a, b = s.split("/")
+    return Fraction(int(a), int(b))
+
+
+def near(got, want, scale, exact):
+    """a double of the library against a rational of the model"""
+    from fractions import Fraction
+
+    got = float(got)
+    if got != got or math.isinf(got):
+        return False
+    if exact:
+        return Fraction(got) == want
+    return abs(Fraction(got) - want) <= Fraction(STAT_TOL) * scale
+
+
+def knot_near(col, ws, qs):
+    """is one of the quantile levels within 1e-9 of a knot of the weighted cdf (where the interpolated
+    value may jump: rounding decides the branch)"""
+    x = np.asarray(col, dtype=float)
+    w = np.asarray(ws, dtype=float)
+    with np.errstate(all="ignore"):
+        c = np.cumsum(w[np.argsort(x)])[:-1]
+        if len(c) == 0 or not c[-1] > 0:
+            return False
+        c = np.append(0, c / c[-1])
+    return any(np.min(np.abs(c - q)) <= 1e-9 for q in qs)
+
+
+def correspond_stats(ctx, model, c, samples, ans, sreq):
+    """median_pdf / values_at_sigma / errors_at_sigma (SamplesPDF and SamplesMCMC), max_log_posterior_index,
+    minimise() of the ORIGINAL samples against the model; that the reloaded samples give the same estimates is
+    the oracle's part (check_loaded: derived)"""
+    from autofit.non_linear.samples.mcmc import SamplesMCMC
+
+    sl = samples.sample_list
+    lls = [float(x) for x in samples.log_likelihood_list]
+    posts = [float(a) + float(b) for a, b in zip(samples.log_likelihood_list, samples.log_prior_list)]
+    if "max_post_index" in ans and sl and not any(x != x for x in lls + posts):
+        st, i = attempt(lambda: samples.max_log_posterior_index)
+        if st == "ok":
+            if ans["max_post_index"] != i:
+                ctx.disagree("C09.stats.max_post_index", c, i, ans["max_post_index"])
+            st, mini = attempt(lambda: samples.minimise().sample_list)
+            if st == "ok":
+                got = sorted({k for k, x in enumerate(sl) if any(x is y for y in mini)})
+                # (equal Sample objects hash alike: the set may keep either of two equal samples)
+                if got != ans["minimise_idx"] and len({id(x) for x in sl}) == len(sl) and len(set(sl)) == len(sl):
+                    ctx.disagree("C09.stats.minimise", c, got, ans["minimise_idx"])
+                ctx.hit("stats:minimise")
+    if ans.get("stats") is None:
+        ctx.hit("stats:skipped-non-finite")
+        return
+    st, pl = attempt(lambda: samples.parameter_lists)
+    if st == "err":
+        return
+    rows = [[float(x) for x in r] for r in pl]
+    n = len(rows[0]) if rows else 0
+    ws = [float(x) for x in samples.weight_list]
+    cols = [[r[j] for r in rows] for j in range(n)]
+    conv = max(ws) <= 0.99 if ws else False
+    if bool(ans["converged"]) != conv:
+        ctx.disagree("C09.stats.converged", c, conv, ans["converged"])
+        return
+    with contextlib.suppress(Exception):
+        st_m, mcmc = attempt(lambda: SamplesMCMC(model=model, sample_list=sl))
+    for kind, obj, key in (("pdf", samples, "qlows"), ("mcmc", mcmc if st_m == "ok" else None, "qlows_mcmc")):
+        if obj is not None:
+            compare_estimates(ctx, c, kind, obj, cols, ws, conv, ans["stats"][kind], [h2f(x) for x in sreq[key]], f"C09.stats.{kind}")
+
+
+def compare_estimates(ctx, c, kind, obj, cols, ws, conv, mods, qlows, clause):
+    """median / values / errors at sigma of the real object `obj` (its parameters' columns: `cols`) against the
+    model's exact ones `mods` (one list per sigma)"""
+    n = len(cols)
+    # floating-point results are compared with the exact ones only where neither overflows nor loses everything
+    tame_w = all(w == 0.0 or 1e-150 <= w <= 1e150 for w in ws)
+    tame = [tame_w and all(x == 0.0 or 1e-150 <= abs(x) <= 1e150 for x in col) for col in cols]
+    scale = [max([abs(x) for x in col] + [5e-324]) for col in cols]
+    for si, sigma in enumerate(SIGMAS):
+        mod = mods[si]
+        if mod is None:
+            continue
+        ql = qlows[si]
+        with np.errstate(all="ignore"):
+            st1, med = attempt(lambda: obj.median_pdf(as_instance=False))
+            st2, val = attempt(lambda: obj.values_at_sigma(sigma=sigma, as_instance=False))
+            st3, err = attempt(lambda: obj.errors_at_sigma(sigma=sigma, as_instance=False))
+        for j in range(n):
+            exact = kind == "pdf" and not conv
+            if not tame[j] and not exact:
+                ctx.hit("stats:column-skipped-extreme-magnitudes")
+                continue
+            if kind == "pdf" and conv:
+                if len(set(cols[j])) != len(cols[j]):
+                    ctx.hit("stats:column-skipped-repeated-values")  # which of two equal values numpy sorts first
+                    continue
+                if knot_near(cols[j], ws, [0.5, ql, 1 - ql]):
+                    ctx.hit("stats:column-skipped-level-at-knot")
+                    continue
+            got = None
+            if st1 == st2 == st3 == "ok":
+                got = [med[j], val[j][0], val[j][1], err[j][0], err[j][1]]
+                if any(float(x) != float(x) for x in got):
+                    got = None
+            want = None if mod[j] is None else [frac(x) for x in mod[j]]
+            ctx.notes["numerical_tests"] = ctx.notes.get("numerical_tests", 0) + 5
+            if (got is None) != (want is None):
+                ctx.disagree(clause + ".defined", dict(c, column=j, sigma=sigma),
+                             None if got is None else [float(x) for x in got], mod[j])
+            elif got is not None and not all(near(g, w, scale[j], exact and k < 3)  # (the two errors are floating-point differences)
+                                              for k, (g, w) in enumerate(zip(got, want)) if k < 3 or tame[j]):
+                ctx.disagree(clause, dict(c, column=j, sigma=sigma),
+                             [float(x) for x in got], [float(w) for w in want])
+            else:
+                ctx.hit(f"stats:{kind}:" + ("none" if got is None else ("converged" if (conv or kind == "mcmc") else "unconverged")))
+
+
+def correspond_reordered(ctx, model, case, loaded, summ, cfg):
+    """A completed fit read through the directory aggregator: the model attached to the reloaded samples comes from
+    model.json and may list the parameters in another order. Model: `reorder idx (shapeOf t)` is that model's shape,
+    the estimates recomputed under it are those of the reloaded samples, and the plain lists stored in the summary
+    agree with them by position exactly where the model says so (`attributed`)."""
+    spec = case["samples"]
+    keep = case.get("persisted")
+    if keep is not None and keep != list(range(len(spec["rows"]))):
+        ctx.hit("reordered:skipped-some-samples-not-persisted")
+        return
+    idx = column_map(model, loaded.model)
+    if idx is None:
+        return
+    c = dict(case, route="model:reordered")
+    sreq = stats_request()
+    req = {"p": "C09", "comp": X.node_of(model), "cfg": cfg, "pads": [], "stats": sreq, "reorder": idx}
+    req.update(wire_samples(model, spec))
+    ans = ctx.lean.ask(req)
+    if "driver_error" in ans:
+        ctx.disagree("C09.driver", c, None, ans)
+        return
+    ro = ans.get("reordered")
+    if ro is None:
+        ctx.hit("reordered:skipped-non-finite")
+        return
+    ctx.hit("reordered:same-order" if idx == sorted(idx) else "reordered:other-order")
+
+    def canon_shape(sh):
+        return [{"paths": sorted(P["paths"]), "names": sorted(P["names"]), "uniq": P["uniq"]} for P in sh]
+
+    st, rs = attempt(real_shape, loaded.model)
+    if st == "ok" and canon_shape(rs) != canon_shape(ro["shape"]):
+        ctx.disagree("C09.reordered.shape", c, rs[:4], ro["shape"][:4])
+        return
+    st, pl = attempt(lambda: loaded.parameter_lists)
+    if st == "err":
+        return
+    rows = [[float(x) for x in r] for r in pl]
+    n = len(rows[0]) if rows else 0
+    ws = [float(x) for x in loaded.weight_list]
+    cols = [[r[j] for r in rows] for j in range(n)]
+    conv = max(ws) <= 0.99 if ws else False
+    qlows = [h2f(x) for x in sreq["qlows"]]
+    compare_estimates(ctx, c, "pdf", loaded, cols, ws, conv, ro["pdf"], qlows, "C09.reordered.pdf")
+    # the stored lists read by position
+    if summ is None:
+        return
+    for si, (sigma, name) in enumerate(zip(SIGMAS, ("values_at_sigma_1", "values_at_sigma_3"))):
+        flags = ro["by_position"][si]
+        stored = getattr(summ, name, None)
+        st, fresh = attempt(lambda: loaded.values_at_sigma(sigma=sigma, as_instance=False))
+        if flags is None or stored is None or st == "err" or len(stored) != n or (conv and len(rows) < 2):
+            continue
+        for k in range(n):
+            if k not in idx:
+                continue
+            # (stored[k] was computed from the fitted model's column k = column idx.index(k) of the reloaded samples)
+            if conv and any(len(set(col)) != len(col) or knot_near(col, ws, [qlows[si], 1 - qlows[si]])
+                            for col in (cols[k], cols[idx.index(k)])):
+                continue
+            sc = max([abs(x) for col in cols for x in col] + [5e-324])
+            if not all(x == 0.0 or 1e-150 <= abs(x) <= 1e150 for col in cols for x in col):
+                continue
+            same = all(abs(float(a) - float(b)) <= STAT_TOL * sc for a, b in zip(stored[k], fresh[k]))
+            if same != bool(flags[k]) and not (same and not flags[k]):
+                # (numerically coinciding estimates of two different parameters are not told apart)
+                ctx.disagree("C09.reordered.by_position", dict(c, column=k, sigma=sigma),
+                             {"stored": [float(x) for x in stored[k]], "fresh": [float(x) for x in fresh[k]]}, flags[k])
+            else:
+                ctx.hit("reordered:by-position-" + ("agrees" if flags[k] else "attributes-another-parameter"))
+
+
+# ---------------------------------------------------------------------------------------------
 # correspondence
 
 
@@ -917,6 +1128,7 @@ def correspond(ctx, model, case, samples, dir_out, db_out, cfg):
     comp = X.node_of(model)
     req = {"p": "C09", "comp": comp, "cfg": cfg, "pads": (dir_out or {}).get("pads", [])}
     req.update(wire_samples(model, case["samples"]))
+    req["stats"] = stats_request()
     ans = ctx.lean.ask(req)
     c = dict(case, route="model")
     if "driver_error" in ans:
@@ -933,6 +1145,7 @@ def correspond(ctx, model, case, samples, dir_out, db_out, cfg):
     cmp("C09.shape", real_shape(model), ans["shape"])
     cmp("C09.samples", [canon_sample(s) for s in samples.sample_list], ans["samples"])
     cmp("C09.param_lists", plists(samples), ans["param_lists"])
+    correspond_stats(ctx, model, c, samples, ans, req["stats"])
     ctx.hit("model:wf" if ans["wf"] else "model:not-wf")
     if not ans["wf"] and not features(model)["reserved"]:
         # the theorems do not speak about this generated composition: make it visible
